@@ -166,16 +166,16 @@ extern "C" void h_c28_rate(unsigned long k, unsigned long fetch, unsigned long t
     g_rec = Rec{}; g_manifest = protocol::Manifest{}; g_decodable = true;
     long long now_s = 100, accepted_at[16]; unsigned na = 0; const unsigned limit = fetch ? 12 : 6;
     for (unsigned long i = 0; i < k; ++i) {
-        now_s += nondet_u8("advance_s") & 15; verif_env::g_steady_ns = now_s * 1000000000LL;
+        now_s += nondet_u8("advance_s") & ((token_mode >> 2) ? 3 : 15);      // token_mode bit 2: gaps of 0..3 s instead of 0..15 s verif_env::g_steady_ns = now_s * 1000000000LL;
         ParsedRequest rq; rq.payload = {1}; rq.payload_header_present = true; rq.fields["MANIFEST"] = "eph://m"; if (fetch) rq.fields["STREAM"] = "client";
         // TOKEN header per request: none / a different value every time / the same value every time (fixed per job: the values only key a map)
-        if (token_mode == 1) rq.fields["TOKEN"] = std::string(1, static_cast<char>('a' + i)); else if (token_mode == 2) rq.fields["TOKEN"] = "same";
+        if ((token_mode & 3) == 1) rq.fields["TOKEN"] = std::string(1, static_cast<char>('a' + i)); else if ((token_mode & 3) == 2) rq.fields["TOKEN"] = "same";
         const unsigned before = fetch ? g_rec.responses : g_rec.store_calls; const bool was = g_rec.last_success;
         if (fetch) impl.handle_fetch(7, rq, "10.1.2.3"); else impl.handle_store(7, rq, "10.1.2.3");
         (void)before; (void)was;
         const bool accepted = g_rec.last_success;
         unsigned in_window = 0; for (unsigned j = 0; j < na; ++j) if (now_s - accepted_at[j] <= 30) ++in_window;
-        if (accepted) { verif_assert(in_window < limit, "C28: one client address gets at most 6 STOREs / 12 streamed FETCHes accepted in any 30 s window, whatever TOKEN header it sends"); accepted_at[na++] = now_s; }
+        if (accepted) { verif_assert(in_window < limit, "C28: one client address gets at most 6 STOREs / 12 streamed FETCHes accepted in any 30 s window, whatever TOKEN header it sends"); accepted_at[na++] = now_s; verif_reach("accepted"); } else verif_reach("limited");
     }
     verif_reach("rated");
 }
